@@ -57,14 +57,17 @@ GetfileClauses(e) ==
   [ getfile_header |-> e.header = <<e.w, e.h, Len(e.cells)>> /\ e.f = e.fout,
     getfile_rows   |-> e.rows = e.cells ]
 
+\* a dash whose two end points coincide on the lattice is nothing visible (under an inexact embedding the code's
+\* test `magnitude == 0` may see two floats that differ in the last bit)
+Visible(r) == IF r # <<>> /\ r[1] = r[2] THEN <<>> ELSE r
 Judge(e) ==
   CASE e.kind = "clip"   -> LET abn == IF e.calls < 0 \/ e.offl = 1 THEN 1 ELSE 0 IN
-                            [ cl |-> (IF abn = 1 THEN [ clip_drawn_iff_meets |-> TRUE ] ELSE ClipClauses(e.seg, e.window, QPts(e.r)))
+                            [ cl |-> (IF abn = 1 THEN [ clip_drawn_iff_meets |-> TRUE ] ELSE ClipClauses(e.seg, e.window, Visible(QPts(e.r))))
                                      @@ [ clip_terminates |-> e.calls >= 0,      \* the call returns
                                           clip_on_lattice |-> e.offl = 0,        \* the end points are small rationals of the lattice
                                           clip_single_dash |-> e.calls <= 1 ],
                               dr |-> [ clip_value |-> TRUE ],
-                              nf |-> ExplainedBy(e.seg, e.window, QPts(e.r), abn) ]
+                              nf |-> ExplainedBy(e.seg, e.window, Visible(QPts(e.r)), abn) ]
     [] e.kind = "solid"  -> [ cl |-> [ solid_endpoints |-> Len(e.obs) = 2 /\ \A i \in 1..2 :
                                           QPt(e.obs[i]) = Interp(e.window, e.size, QPt(e.pts[i])) ],
                               dr |-> [ solid_value |-> TRUE ], nf |-> "" ]
